@@ -15,6 +15,8 @@ EXPLANATION = ('(a) SanityCheckPlan::check_finiteness_requirements: with bounded
                'a coop budget call; three bodies whose Pending rests on a data-dependent loop-remainder / generator protocol are frozen with '
                'the reason read in the source (rules/pending.py). A stream that answers Pending out of thin air parks its query forever. '
                'Liveness of streams at run time beyond this is not decided.')
+# path rules cut loops after a bounded number of iterations: complete over rule instances, not over all unrollings
+EXHAUSTIVE = False
 ASSUMPTIONS = ['need_produce_result_in_final(jt) is the operators\' actual final-phase emission table (its own soundness is C05)']
 
 P = 'datafusion_physical_plan::joins::'
